@@ -185,19 +185,35 @@ C06Donors(x, r) ==
                           /\ RecSetOf(r, i) \subseteq NodesOf(x)
                           /\ RangeS(At(r.don, i)) \subseteq NodesOf(x)
   /\ \A i \in NodesOf(x) :
+       \* every donor entry of i is a receiver entry of that donor, and every receiver entry of i is a donor
+       \* entry of that receiver, with the same multiplicity (both directions, linear in the table sizes)
        /\ \A j \in RangeS(At(r.don, i)) \ {i} : PairCountDon(x, r, i, j) = PairCountRec(x, r, i, j)
-       /\ \A j \in NodesOf(x) \ {i} : i \in RecSetOf(r, j) => PairCountDon(x, r, i, j) = PairCountRec(x, r, i, j)
+       /\ \A j \in RecSetOf(r, i) \ {i} : PairCountDon(x, r, j, i) = PairCountRec(x, r, j, i)
+\* Positions in a traversal order.  On large worlds the harness logs the inverse permutation as an
+\* UNTRUSTED certificate (dpos / bpos, and blev = level of each node): it is used only after TLC has
+\* verified, in one pass, that it is the inverse of the logged order (which also shows that the order
+\* has no duplicate); without a certificate the positions are computed here.
+CertInverse(sq, inv, n) == Len(sq) = n /\ Len(inv) = n /\ \A k \in 1..n : sq[k] \in 0..(n - 1) /\ At(inv, sq[k]) = k - 1
 C06Dfs(x, r) ==
-  /\ IsPerm0(r.dfs, x.n)
-  /\ LET pos == TLCEval([i \in NodesOf(x) |-> PosIn(r.dfs, i)]) IN
-     \A i \in NodesOf(x) : \A j \in RecSetOf(r, i) \ {i} : pos[j] < pos[i]
+  IF "dpos" \in DOMAIN r
+    THEN /\ CertInverse(r.dfs, r.dpos, x.n)
+         /\ \A i \in NodesOf(x) : \A j \in RecSetOf(r, i) \ {i} : At(r.dpos, j) < At(r.dpos, i)
+    ELSE /\ IsPerm0(r.dfs, x.n)
+         /\ LET pos == TLCEval([i \in NodesOf(x) |-> PosIn(r.dfs, i)]) IN
+            \A i \in NodesOf(x) : \A j \in RecSetOf(r, i) \ {i} : pos[j] < pos[i]
 C06Bfs(x, r) ==
-  /\ IsPerm0(r.bfs, x.n)
   /\ Len(r.lev) >= 2 /\ r.lev[1] = 0 /\ r.lev[Len(r.lev)] = x.n
   /\ \A k \in 1..(Len(r.lev) - 1) : r.lev[k] < r.lev[k + 1]
-  /\ LET pos == TLCEval([i \in NodesOf(x) |-> PosIn(r.bfs, i)])
-         level == TLCEval([i \in NodesOf(x) |-> CHOOSE k \in 1..(Len(r.lev) - 1) : r.lev[k] <= pos[i] /\ pos[i] < r.lev[k + 1]])
-     IN \A i \in NodesOf(x) : \A j \in RecSetOf(r, i) \ {i} : level[j] < level[i]
+  /\ IF "bpos" \in DOMAIN r
+       THEN /\ CertInverse(r.bfs, r.bpos, x.n)
+            /\ Len(r.blev) = x.n
+            /\ \A i \in NodesOf(x) : LET k == At(r.blev, i) IN
+                  k \in 1..(Len(r.lev) - 1) /\ r.lev[k] <= At(r.bpos, i) /\ At(r.bpos, i) < r.lev[k + 1]
+            /\ \A i \in NodesOf(x) : \A j \in RecSetOf(r, i) \ {i} : At(r.blev, j) < At(r.blev, i)
+       ELSE /\ IsPerm0(r.bfs, x.n)
+            /\ LET pos == TLCEval([i \in NodesOf(x) |-> PosIn(r.bfs, i)])
+                   level == TLCEval([i \in NodesOf(x) |-> CHOOSE k \in 1..(Len(r.lev) - 1) : r.lev[k] <= pos[i] /\ pos[i] < r.lev[k + 1]])
+               IN \A i \in NodesOf(x) : \A j \in RecSetOf(r, i) \ {i} : level[j] < level[i]
 C06(x, r) == C06Donors(x, r) /\ C06Dfs(x, r) /\ C06Bfs(x, r)
 
 -----------------------------------------------------------------------------
@@ -205,14 +221,16 @@ C06(x, r) == C06Donors(x, r) /\ C06Dfs(x, r) /\ C06Bfs(x, r)
 (* b: [lab (label per node, -1 = reserved maximum), outlets, pits]           *)
 C19(x, r, b) ==
   LET outl == {i \in NodesOf(x) : ~Msk(x, i) /\ RecSeq(r, i) = <<i>>}
-      pos == TLCEval([i \in NodesOf(x) |-> PosIn(r.dfs, i)])
+      pos == TLCEval([i \in outl |-> PosIn(r.dfs, i)])      \* (only compared between outlets)
       k == Cardinality(outl)
-  IN /\ \A i \in NodesOf(x) : Msk(x, i) => At(b.lab, i) = 0 - 1
-     /\ \A i \in NodesOf(x) : ~Msk(x, i) => /\ At(b.lab, i) \in 0..(k - 1)
-                                            /\ At(b.lab, i) = At(b.lab, RecSeq(r, i)[1])
+      labels == {At(b.lab, i) : i \in {i \in NodesOf(x) : ~Msk(x, i)}}
+  IN /\ \A i \in NodesOf(x) : IF Msk(x, i) THEN At(b.lab, i) = 0 - 1
+                                          ELSE At(b.lab, i) = At(b.lab, RecSeq(r, i)[1])
+     \* (set-level forms: each of outl, k, labels is evaluated once, whatever the size of the world)
+     /\ labels \subseteq 0..(k - 1)
      /\ \A i, j \in outl : (pos[i] < pos[j]) => At(b.lab, i) < At(b.lab, j)
      /\ {At(b.lab, i) : i \in outl} = 0..(k - 1)
-     /\ Cardinality({At(b.lab, i) : i \in NodesOf(x) \ {i \in NodesOf(x) : Msk(x, i)}}) = k
+     /\ Cardinality(labels) = k
      /\ RangeS(b.outlets) = outl /\ Len(b.outlets) = k
      /\ RangeS(b.pits) = outl \ x.bl /\ Len(b.pits) = Cardinality(outl \ x.bl)
 
